@@ -525,6 +525,12 @@ pub fn gen_rawlib(src: &mut Src, o: &RawGenOpts) -> RLib {
                 let net = if !ports.is_empty() && src.prob(1, 6) { ports[src.index(ports.len())].net.clone() } else { PORT_NAMES[(pi * 5 + w as usize + h as usize) % PORT_NAMES.len()].to_string() };
                 ports.push(RPort { net, shapes });
             }
+            // a declared pin with nothing drawn yet: a port without a single layer entry (only for the
+            // conversions that keep the model as it is, the ones that also keep closing vertices)
+            if o.closed_polygons && src.prob(1, 8) {
+                let at = src.index(ports.len() + 1);
+                ports.insert(at, RPort { net: "feedthru".to_string(), shapes: vec![] });
+            }
             let obs_layers: Vec<usize> = (0..layers.len()).filter(|i| layers[*i].purposes.iter().any(|p| p.1 == RPurpose::Obstruction) && layers[*i].name.is_some()).collect();
             let nb = src.usize_in(0, obs_layers.len().min(3));
             let mut idx: Vec<usize> = obs_layers.clone();
